@@ -79,6 +79,18 @@ def build(cfg, N, mir_path=None, line=None):
     def s_iter(ex, st, callee, args, argv, f):
         return ok1(st, Opaque("iter", argv[0]))
 
+    def s_take(ex, st, callee, args, argv, f):
+        it, n = argv
+        sl = ex.deref_val(st, it.e) if isinstance(it, Opaque) and it.tag == "iter" else None
+        if not isinstance(sl, T.SliceV) or not z3.is_bv(n):
+            raise Unsupported("iterator adapter on %r" % (it,))
+        ln = sl.e - sl.s
+        n8 = z3.Extract(T.W - 1, 0, n)
+        big = z3.UGT(n, 255) if n.size() > T.W else z3.BoolVal(False)
+        if callee.endswith("::take"):
+            return ok1(st, Opaque("iter", T.SliceV(sl.line, sl.s, z3.If(z3.Or(big, z3.UGE(n8, ln)), sl.e, sl.s + n8))))
+        return ok1(st, Opaque("iter", T.SliceV(sl.line, z3.If(z3.Or(big, z3.UGE(n8, ln)), sl.e, sl.s + n8), sl.e)))
+
     def s_fold(ex, st, callee, args, argv, f):
         it, init, clo = argv
         sl = ex.deref_val(st, it.e) if isinstance(it, Opaque) else None
@@ -101,6 +113,7 @@ def build(cfg, N, mir_path=None, line=None):
         (r"^nom::error::Error::<&\[u8\]>::new$|^<nom::error::Error<&\[u8\]> as ParseError<&\[u8\]>>::from_error_kind$", s_nom_err_ctor),
         (r"^core::slice::<impl \[u8\]>::iter$", s_iter),
         (r"as Iterator>::fold::<u8,", s_fold),
+        (r"as Iterator>::(?:take|skip)$", s_take),
     ]
     table = T.build_table(extra)
     ex = Executor(funcs, enums, structs, table)
@@ -485,16 +498,19 @@ def q_fields(cx):
     def judge(line, real, ce):
         if real["kind"] not in "CI":
             return None
+        # reference fields of this concrete line, from the specification-side extractor
+        sub = [(rel.line.bytes[i], z3.BitVecVal(line[i] if i < len(line) else 0, 8)) for i in range(rel.N)] + [(rel.line.n, T.pos(len(line)))]
+        ev = lambda e: z3.simplify(z3.substitute(e, *sub))
         try:
-            s = line.decode("latin1")
-            if s[0] == "\\":
-                s = s[s.index("\\", 1) + 1:]
-            f = s[1:s.index("*")].split(",")
-            want = (int(f[1]), int(f[2]), int(f[3]) if f[3] else None, int(f[6]), f[5].encode("latin1"))
-            got = (real["nf"], real["fn"], real["id"], real["fill"], real["data"])
-            return None if want == got else "returned fields %s differ from the transmitted ones %s" % (got, want)
-        except Exception as e:
+            ps, pe = ev(ref.p_s).as_long(), ev(ref.p_e).as_long()
+            want = {"nf": ev(ref.nf).as_long(), "fn": ev(ref.fn).as_long(), "id": ev(ref.id_v).as_long() if z3.is_true(ev(ref.id_some)) else None,
+                    "fill": ev(ref.fill).as_long(), "data": bytes(line[ps:pe]), "channel": ev(ref.ch).as_long() if z3.is_true(ev(ref.ch_some)) else None,
+                    "talker": (TALKERS + ["Unknown"])[ev(ref.talker).as_long()], "rtype": ["VDM", "VDO", "Unknown"][ev(ref.rtype).as_long()]}
+        except Exception:
             return None
+        got = {k: real.get(k) for k in want}
+        diff = {k: (got[k], want[k]) for k in want if got[k] != want[k]}
+        return None if not diff else "returned fields differ from the transmitted ones (got, transmitted): %s" % diff
     return ask(cx, "accepted-sentence-reports-the-transmitted-fields", z3.Or(*bad) if bad else z3.BoolVal(False),
                "talker (ten ids, else Unknown), report type, count, number, optional id, channel = first byte of its field, fill, raw payload bytes = the payload field; raw = bytes between start delimiter and '*'",
                judge, extra_for_replay=z3.And(ref.fn == 1))
